@@ -22,12 +22,15 @@ META = {
 }
 
 
-def verdicts(inp, out, exact=None, ordst=None):
+def verdicts(inp, out, exact=None, ordst=None, shst=None):
     """the C03 oracles on one accepted outcome: [(signature, what)]"""
     v = []
     if "postings" not in out:
         return v
     exact = collections.Counter() if exact is None else exact
+    # portion clause, on the postings alone: every entry of an allotment gets / gives the floored fraction the text states
+    for side, what in portion_shares_verdicts(inp, out, shst):
+        v.append(({"property": "C03", "class": "portion-shares", "side": side}, what))
     for n, p in enumerate(out["postings"]):
         if int(p[2]) < 0:
             v.append(({"property": "C03", "class": "negative-posting"}, "posting %d is negative" % n))
@@ -79,13 +82,13 @@ def run(ctx):
     inputs, impl, model = r
     compare(ctx, "numscript:spec-vs-vm", inputs, impl, model, proj_impl=lambda i, o: strip(o))
     seen, nontrivial = set(), 0
-    exact, ordst = collections.Counter(), collections.Counter()
+    exact, ordst, shst = collections.Counter(), collections.Counter(), collections.Counter()
     rp = Replays(ctx, inputs)   # a replay is the case alone when that shows the violation, else (earlier case of the process, case)
     for inp in inputs:
         out = impl.get(inp["id"], {})
         if "postings" not in out:
             continue
-        for sig, what in verdicts(inp, out, exact, ordst):
+        for sig, what in verdicts(inp, out, exact, ordst, shst):
             rp.violation(sig, what, inp, out, lambda o, inp=inp, sig=sig: any(s == sig for s, _ in verdicts(inp, o)))
         f = features(inp)
         h = shash(inp["text"] + canon(inp["bal"]))
@@ -93,6 +96,7 @@ def run(ctx):
             nontrivial += 1
         seen.add(h)
     ctx.cov["ordered_sources_oracle"] = dict(ordst)
+    ctx.cov["portion_shares_oracle"] = dict(shst)
     ctx.cov["replay_isolation"] = dict(rp.stats)
     ctx.cov["exactness_oracle"] = dict(exact)
     ctx.cov["evaluations"] = len(inputs)
